@@ -58,6 +58,10 @@ type tagFilter struct {
 	isNegative bool
 	isRegexp   bool
 
+	// Set to true for a regexp without metacharacters: value then holds the unescaped literal,
+	// which matches every tag value containing it.
+	isLiteralRegexp bool
+
 	// Set to true for filters matching empty value.
 	isEmptyMatch bool
 
@@ -224,6 +228,7 @@ func (tf *tagFilter) Init(name, key, value []byte, isNegative, isRegexp bool) er
 	tf.name = append(tf.name[:0], name...)
 	tf.isNegative = isNegative
 	tf.isRegexp = isRegexp
+	tf.isLiteralRegexp = false
 	tf.matchCost = 0
 	tf.reSuffixMatch = nil
 	tf.isEmptyValue = false
@@ -286,6 +291,7 @@ func (tf *tagFilter) InfluxRegrep() (regexpCacheValue, error) {
 		prefix, expr = getRegexpPrefix(tf.value)
 		if len(expr) == 0 {
 			tf.value = append(tf.value[:0], prefix...)
+			tf.isLiteralRegexp = true
 			// select /Ubuntu/ should return match value which contain Ubuntu
 			tf.reSuffixMatch = func(b []byte) bool {
 				return bytes.Contains(b, tf.value)
@@ -312,6 +318,7 @@ func (tf *tagFilter) OpGeminiRegrep() (*regexpCacheValue, error) {
 		prefix, expr = openGeminiSimplifyRegexp(prefix)
 		if len(expr) == 0 {
 			tf.value = append(tf.value[:0], prefix...)
+			tf.isLiteralRegexp = true
 			// select /Ubuntu/ should return match value which contain Ubuntu
 			tf.reSuffixMatch = func(b []byte) bool {
 				return bytes.Contains(b, tf.value)
